@@ -4,6 +4,7 @@ import (
 	"errors"
 	"fmt"
 	"os"
+	"sync/atomic"
 
 	"github.com/markusressel/fan2go/internal/configuration"
 	"github.com/markusressel/fan2go/internal/ui"
@@ -21,6 +22,9 @@ type HwMonFan struct {
 	FanCurveData *map[int]float64        `json:"fanCurveData"`
 	Rpm          int                     `json:"rpm"`
 	Pwm          int                     `json:"pwm"`
+
+	// pwmSensorSeen is 1 once the PWM value has been read successfully (see Supports)
+	pwmSensorSeen int32
 }
 
 func (fan *HwMonFan) GetId() string {
@@ -189,7 +193,16 @@ func (fan *HwMonFan) Supports(feature FeatureFlag) bool {
 		_, err := os.Stat(fan.Config.HwMon.PwmEnablePath)
 		return err == nil
 	case FeaturePwmSensor:
+		// a PWM value that could be read once does not stop being a feature of the fan when
+		// a later read fails: callers then get the read error from GetPwm() instead of
+		// silently falling back to the value they assume to have set
+		if atomic.LoadInt32(&fan.pwmSensorSeen) == 1 {
+			return true
+		}
 		_, err := util.ReadIntFromFile(fan.Config.HwMon.PwmPath)
+		if err == nil {
+			atomic.StoreInt32(&fan.pwmSensorSeen, 1)
+		}
 		return err == nil
 	case FeatureRpmSensor:
 		_, err := os.Stat(fan.Config.HwMon.RpmInputPath)
